@@ -219,8 +219,11 @@ def retry_scenario(rng, sid):
 
 
 def rand_pol_next(rng):
-    return {"kind": rng.choice(["wall", "mono", "both"]), "dt": rng.choice([60, 3600, 86400]),
-            "minwait": rng.choice([[], [], [30], [600]])}
+    a = {"kind": rng.choice(["wall", "mono", "both"]), "dt": rng.choice([60, 3600, 86400]),
+         "minwait": rng.choice([[], [], [30], [600]])}
+    if rng.random() < 0.25:
+        a["mwms"] = [rng.choice([0, 1, 500, 999, 1500, 60001])]   # sub-second and odd minimum waits
+    return a
 
 
 def rand_pol_check(rng):
